@@ -120,11 +120,34 @@ def type_names(tokens):
     return out
 
 
+def instance_names(tokens):
+    """one concrete member of the path's input class: unfixed tokens take some terminal of their remaining domain"""
+    out = []
+    for t in tokens:
+        ty = t.type
+        if hasattr(ty, 'tok'):
+            tok = ty.tok
+            if tok.fixed is not None:
+                out.append(tok.fixed)
+            else:
+                rest = [a for a in tok.explorer.alphabet if a not in tok.excluded]
+                # prefer a terminal whose lexeme is easy to write down
+                pref = [a for a in ('COMMA', 'RPAREN', 'ID', 'INTEGER') if a in rest]
+                out.append(pref[0] if pref else rest[0])
+        else:
+            out.append(str(ty))
+    return out
+
+
 def path_weight(tokens):
+    """number of (type sequence, line layout) inputs the path stands for: product of the type-class sizes, times 2 for
+    every token whose symbolic line break was never looked at on this path"""
     w = 1
     for t in tokens:
         if hasattr(t, 'domain_size'):
             w *= t.domain_size()
+            if getattr(t, '_lineno', 1) is None:
+                w *= 2
     return w
 
 
@@ -135,6 +158,7 @@ def _check_path(dialect, toks, r, earley, st, on_reject=None):
     st[r.outcome] = st.get(r.outcome, 0) + 1
     st['covered'] += path_weight(toks)
     names = type_names(toks)
+    nf0 = len(st['findings'])
     if r.outcome == 'accept':
         unfixed = [t for t in toks if hasattr(t, 'fixed') and t.fixed is None]
         if unfixed:
@@ -157,6 +181,9 @@ def _check_path(dialect, toks, r, earley, st, on_reject=None):
             st['samples'].append({'types': names, 'outcome': 'reject', 'covers': path_weight(toks)})
         if on_reject:
             on_reject(toks, r, st)
+    for f in st['findings'][nf0:]:
+        if 'types' in f and 'instance' not in f:
+            f['instance'] = instance_names(toks)
 
 
 PREDECESSORS = {
@@ -280,10 +307,15 @@ def worker_space1(args):
     t0 = time.time()
     for first in firsts:
         def run_one(ex):
-            toks = [SymToken(ex, i) for i in range(K)]
+            toks = []
+            for i in range(K):
+                toks.append(SymToken(ex, i, prev=toks[-1] if toks else None, layout=(K <= 3)))
             toks[0].fixed = first
             r = run_tail(dialect, L, P, toks)
+            nf = len(st['findings'])
             _check_path(dialect, toks, r, earley, st, on_reject)
+            for f in st['findings'][nf:]:
+                f['linenos'] = [t._lineno or 1 for t in toks]
         ex.explore(run_one)
     st.update(paths=ex.paths, solver_calls=ex.solver_calls, solver_s=ex.solver_s, wall=time.time() - t0)
     return st
@@ -300,7 +332,7 @@ def sweep_space1(dialect, K, jobs=None, use_z3=True, want_c19=False):
         shards = [s for s in shards if s]
     with mp.get_context('fork').Pool(min(jobs, len(shards))) as pool:
         res = pool.map(worker_space1, [(dialect, K, s, use_z3, want_c19) for s in shards])
-    return merge(res), len(alpha) ** K
+    return merge(res), len(alpha) ** K * (2 ** (K - 1) if K <= 3 else 1)
 
 
 def merge(res):
@@ -354,6 +386,7 @@ def worker_space3(args):
 
         def run_one(ex):
             toks = fresh()
+            pos = None
             kind = ex.choose_int(3 + len(affix))
             if kind == 0:      # insert one symbolic token at position 0..n
                 pos = ex.choose_int(n + 1)
@@ -368,10 +401,39 @@ def worker_space3(args):
                 pre, suf = affix[kind - 3]
                 toks = [SymToken(ex, i) for i in range(pre)] + toks + [SymToken(ex, n + pre + i) for i in range(suf)]
             r = run_tail(dialect, L, P, toks)
+            nf = len(st['findings'])
             _check_path(dialect, toks, r, earley, st, on_reject)
+            for f in st['findings'][nf:]:
+                # enough to rebuild the input text with the statement's own line layout
+                f['base_sql'] = text
+                f['edit'] = {'kind': kind, 'pos': pos if kind < 3 else None, 'affix': list(affix[kind - 3]) if kind >= 3 else None}
         ex.explore(run_one)
     st.update(paths=ex.paths, solver_calls=ex.solver_calls, solver_s=ex.solver_s, wall=time.time() - t0)
     return st
+
+
+def rebuild_text(dialect, finding):
+    """the input text of a space-(iii) finding: the corpus statement with the edit applied textually (layout preserved)"""
+    from engines.symtok import representatives
+    L, P = dialect_classes(dialect)
+    rep, lexemes = representatives(L)
+    base = finding['base_sql']
+    toks = list(L().tokenize(base))
+    types = finding.get('instance') or finding['types']
+    e = finding['edit']
+    lex = lambda t: lexemes.get(t, t)
+    if e['kind'] == 0:
+        pos = e['pos']
+        at = toks[pos].index if pos < len(toks) else len(base)
+        return base[:at] + ' ' + lex(types[pos]) + ' ' + base[at:]
+    if e['kind'] == 1:
+        pos = e['pos']
+        return base[:toks[pos].index] + ' ' + lex(types[pos]) + ' ' + base[toks[pos].end:]
+    if e['kind'] == 2:
+        pos = e['pos']
+        return base[:toks[pos].index] + ' ' + base[toks[pos].end:]
+    pre, suf = e['affix']
+    return ' '.join(lex(t) for t in types[:pre]) + ' ' + base + ' ' + ' '.join(lex(t) for t in types[len(types) - suf:] if suf)
 
 
 def sweep_space3(dialect, stmts, jobs=None, use_z3=True, want_c19=False, affix=((0, 1), (1, 0))):
